@@ -61,6 +61,10 @@ def non_bytecode(rng):
         yield "nonbytecode:magic-%d+random" % magic, struct.pack("<H", magic) + b"\r\n" + body
         yield "nonbytecode:magic-%d+zeros" % magic, struct.pack("<H", magic) + b"\r\n" + b"\0" * 80
     yield "nonbytecode:magic-only-short", struct.pack("<H", 3413) + b"\r\n" + b"\0" * 46
+    # a known magic number whose third/fourth bytes are not CR LF (every table keyed by the 4-byte string misses it)
+    for magic in (3361, 3010, 3371, 62071, 62111, 62135, 62215, 3413, 62211, 3531, 20121, 1011, 48):
+        for tail in (b"XX", b"\r\r", b"\n\r", b"\x00\x00", b"\xff\n"):
+            yield "nonbytecode:magic-%d+non-CRLF" % magic, struct.pack("<H", magic) + tail + bytes(rng.randrange(256) for _ in range(80))
 
 
 def le32(n):
